@@ -598,6 +598,29 @@ pub fn build_stream(docs: &[Vec<u8>], f: Fmt, r: &mut Rng, vary: bool) -> Stream
 				alone.extend_from_slice(&body);
 				s.alone.push(alone);
 			}
+			// YAML knows more line breaks than LF: a lone CR, CRLF, NEL, LS and PS. One varied
+			// stream in eight uses one of them throughout (old Mac files, mainframe exports).
+			if vary && r.chance(1, 8) {
+				let style: &[u8] = *r.pick(&[&b"\r"[..], b"\r", b"\r\n", b"\xc2\x85", b"\xe2\x80\xa8", b"\xe2\x80\xa9"]);
+				let restyle = |b: &[u8]| -> (Vec<u8>, Vec<usize>) {
+					let mut out = Vec::with_capacity(b.len() + 16);
+					let mut map = Vec::with_capacity(b.len() + 1);
+					for &c in b {
+						map.push(out.len());
+						if c == b'\n' {
+							out.extend_from_slice(style);
+						} else {
+							out.push(c);
+						}
+					}
+					map.push(out.len());
+					(out, map)
+				};
+				let (nb, map) = restyle(&s.bytes);
+				s.docs = s.docs.iter().map(|&(a, e)| (map[a], map[e])).collect();
+				s.bytes = nb;
+				s.alone = s.alone.iter().map(|a| restyle(a).0).collect();
+			}
 		}
 		Fmt::Toml => {
 			if let Some(d) = docs.first() {
